@@ -41,12 +41,20 @@ def gen_flags(rng, n_valid, n_missing, missing_first=None):
     return flags
 
 
-def gen_dim_var(rng, kind, alias, n_valid=None, n_missing=None, missing_first=None):
+def gen_dim_var(rng, kind, alias, n_valid=None, n_missing=None, missing_first=None, p_perm=0.0):
+    """p_perm: probability that a cat / cat_date typedef lists its categories in another order than the
+    data (`type.order` carries the data order; `Var.cats` stays in data order)"""
     if kind == "mr":
         return gen.gen_var(rng, "mr", alias, n=n_valid if n_valid is not None else rng.randint(1, 4))
     n_valid = n_valid if n_valid is not None else rng.randint(1, 4)
     n_missing = n_missing if n_missing is not None else rng.choice([0, 1, 1, 2])
-    return mk_cat_var(rng, kind, alias, gen_flags(rng, n_valid, n_missing, missing_first))
+    v = mk_cat_var(rng, kind, alias, gen_flags(rng, n_valid, n_missing, missing_first))
+    if kind in ("cat", "cat_date") and len(v.cats) >= 2 and rng.random() < p_perm:
+        perm = list(range(len(v.cats)))
+        while perm == list(range(len(v.cats))):
+            rng.shuffle(perm)
+        v.typedef_perm = perm
+    return v
 
 
 def n_valid_elems(v):
@@ -107,13 +115,36 @@ def sides_of(var, insertions):
     return base, subs
 
 
-def transforms_of(row_ins, col_ins):
+def transforms_of(row_ins, col_ins, row_hide=(), col_hide=(), pairwise=None):
+    """row_hide / col_hide: element ids hidden by an element transform; pairwise: a
+    `pairwise_indices` settings dict (alpha list, only_larger)"""
     tr = {}
     if row_ins:
         tr["rows_dimension"] = {"insertions": row_ins}
     if col_ins:
         tr["columns_dimension"] = {"insertions": col_ins}
+    if row_hide:
+        tr.setdefault("rows_dimension", {})["elements"] = {str(i): {"hide": True} for i in row_hide}
+    if col_hide:
+        tr.setdefault("columns_dimension", {})["elements"] = {str(i): {"hide": True} for i in col_hide}
+    if pairwise is not None:
+        tr["pairwise_indices"] = pairwise
     return tr
+
+
+def valid_element_ids(v):
+    """element ids of the valid elements of the (single apparent) dimension, in element order"""
+    if v.kind == "mr":
+        return [it["id"] for it in v.items]
+    return [v.cats[p]["id"] for p in v.valid_cat_pos]
+
+
+def gen_hide(rng, v, p=0.3):
+    """some valid element ids to hide (never all of them)"""
+    ids = valid_element_ids(v)
+    if len(ids) < 2 or rng.random() >= p:
+        return []
+    return rng.sample(ids, rng.randint(1, len(ids) - 1))
 
 
 # ---------------------------------------------------------------------------------------
